@@ -200,6 +200,22 @@ PLANS.update({
 })
 
 
+# Size of the thorough tier. The scenario engines (puppet, cluster, byz, e2e, hostile) take 0.1-1 s per run;
+# the counts written above are the "deep" size (1-4 h per property on 16 cores). By default a quarter of
+# that is run (15-45 min per property); VERIF_SCALE=4 runs the deep size, VERIF_SCALE=0.1 a smoke test.
+import os as _os
+
+THOROUGH_BASE = 0.25
+try:
+    SCALE = max(0.01, float(_os.environ.get("VERIF_SCALE", "1")))
+except ValueError:
+    SCALE = 1.0
+for _p in PLANS.values():
+    for _s in _p["thorough"]:
+        if _s["workload"] in ("puppet", "cluster", "byz", "e2e") or (_s["workload"] == "hostile" and _s["class"] == "mixed"):
+            _s["count"] = max(_s["per_process"], int(_s["count"] * THOROUGH_BASE * SCALE))
+
+
 def nontrivial(pid, res, sits):
     want = NONTRIVIAL.get(pid)
     if want is None:
